@@ -1,28 +1,37 @@
 import EvermintModel.Facts.GenCode
-/-! What the translator produced on this run: every target function was translated, and the only conditions left
-uninterpreted (inputs of the generated definitions) are the three listed — anything else is a changed obligation. -/
+/-! What the translator produced on this run: every target function was translated, and the only conditions, calls and
+constructed objects left uninterpreted (inputs of the generated definitions, or names of accessors) are the ones listed —
+anything else is a changed obligation. -/
 namespace Evermint.Facts.TieMeta
 open Evermint.GenCode
 
 theorem fact_translated_all :
     translated = ["utils_add", "utils_mul", "utils_EthTxGasPrice", "utils_EthTxFee", "utils_EthTxEffectiveGasPrice",
       "utils_EthTxEffectiveFee", "utils_CheckIfAccountIsSuitableForDestroyingAt", "utils_HasSingleEthereumMessage",
-      "utils_IsEthereumTx", "duallane_validateSingleFee", "duallane_getMinGasPricesAllowed", "duallane_getTxPriority",
-      "duallane_EthereumTxFeeChecker", "duallane_CosmosTxFeeChecker", "keeper_StateTransition_gasUsed",
-      "keeper_StateTransition_buyGas", "keeper_StateTransition_preCheck", "keeper_StateTransition_refundGas",
-      "types_BinSearch", "keeper_Keeper_GetRawTxCountTransient", "keeper_Keeper_GetTxCountTransient",
-      "keeper_Keeper_IncreaseTxCountTransient", "keeper_Keeper_SetGasUsedForCurrentTxTransient",
-      "keeper_Keeper_GetGasUsedForTdxIndexTransient", "keeper_Keeper_SetLogCountForCurrentTxTransient",
-      "keeper_Keeper_GetCumulativeLogCountTransient",
-      "keeper_erc20CustomPrecompiledContractRwTransferFrom_spendAllowance",
-      "types_BlockGasLimit", "misc_CalcBaseFee", "core_IntrinsicGas", "keeper_Keeper_CalculateBaseFee"] := by
+      "utils_IsEthereumTx", "duallane_validateSingleFee", "duallane_getMinGasPricesAllowed",
+      "duallane_getTxPriority", "duallane_EthereumTxFeeChecker", "duallane_CosmosTxFeeChecker",
+      "keeper_StateTransition_gasUsed", "keeper_StateTransition_buyGas", "keeper_StateTransition_preCheck",
+      "keeper_StateTransition_refundGas", "types_BinSearch", "keeper_Keeper_GetRawTxCountTransient",
+      "keeper_Keeper_GetTxCountTransient", "keeper_Keeper_IncreaseTxCountTransient",
+      "keeper_Keeper_SetGasUsedForCurrentTxTransient", "keeper_Keeper_GetGasUsedForTdxIndexTransient",
+      "keeper_Keeper_SetLogCountForCurrentTxTransient", "keeper_Keeper_GetCumulativeLogCountTransient",
+      "keeper_erc20CustomPrecompiledContractRwTransferFrom_spendAllowance", "types_BlockGasLimit",
+      "misc_CalcBaseFee", "core_IntrinsicGas", "keeper_Keeper_CalculateBaseFee", "types_addUint64Overflow",
+      "types_infiniteGasMeterWithLimit_ConsumeGas", "types_infiniteGasMeterWithLimit_RefundGas",
+      "keeper_Keeper_ResetGasMeterAndConsumeGas", "keeper_Keeper_GetBaseFee", "keeper_validateDeployer",
+      "duallane_DLExtensionOptionsDecorator_AnteHandle", "duallane_DLTxTimeoutHeightDecorator_AnteHandle",
+      "duallane_DLValidateMemoDecorator_AnteHandle", "cosmoslane_CLRejectEthereumMsgsDecorator_AnteHandle",
+      "cosmoslane_CLVestingMessagesAuthorizationDecorator_AnteHandle",
+      "duallane_DLValidateBasicDecorator_AnteHandle", "keeper_msgServer_SubmitProofExternalOwnedAccount"] := by
   decide +kernel
 
 theorem fact_uninterpreted :
     uninterpreted = ["utils_CheckIfAccountIsSuitableForDestroyingAt: account==nil||reflect.ValueOf(account).IsNil()",
       "duallane_CosmosTxFeeChecker: call checkTxFeeWithValidatorMinGasPrices(ctx,feeTx)",
       "keeper_StateTransition_preCheck: codeHash!=common.BytesToHash(evmtypes.EmptyCodeHash)",
-      "keeper_StateTransition_preCheck: codeHash!=(*ast.CompositeLit)"] := by
+      "keeper_StateTransition_preCheck: codeHash!=(*ast.CompositeLit)",
+      "duallane_DLValidateBasicDecorator_AnteHandle: object new_LatestSignerForChainID_01415ad1 = ethtypes.LatestSignerForChainID(vbd.ek.GetEip155ChainId(ctx).BigInt())",
+      "keeper_msgServer_SubmitProofExternalOwnedAccount: object lit_vauthtypes_ProofExternalOwnedAccount_5084c998 = vauthtypes.ProofExternalOwnedAccount{Account: msg.Account, Hash: \"0x\"+hex.EncodeToString(crypto.Keccak256(*ast.ArrayType(vauthtypes.MessageToSign))), Signature: msg.Signature}"] := by
   decide +kernel
 
 end Evermint.Facts.TieMeta
